@@ -114,6 +114,55 @@ class _Stop(Exception):
 VALIDATORS = {"bond": _bond, "token": _token, "masses": _masses, "dist": _dist}
 
 
+def _choose(driver):
+    """the vector `choose_compatible_weight` hands to rng.choice against the pinned `chooseWeightsX`, for every weight vector of
+    length 1-4 over {0, 1/2, 1, 2, 3}: every pattern of equal / different / zero weights of that length occurs"""
+    import numpy as np
+    import gbigsmiles
+    import gbigsmiles.core as core
+    from lib import frac, unfrac, close
+
+    class Rec:
+        def __init__(self):
+            self.p = None
+            self.a = None
+
+        def choice(self, a, p=None, **kw):
+            self.a, self.p = list(a), None if p is None else [float(x) for x in p]
+            return list(a)[0]
+    vals = [0.0, 0.5, 1.0, 2.0, 3.0]
+    vecs = [v for n in range(1, 5) for v in itertools.product(vals, repeat=n)]
+    outs = driver.run([{"op": "CHOOSEX", "ws": [frac(x) for x in v]} for v in vecs])
+    bad = []
+    for v, o in zip(vecs, outs):
+        bds = []
+        for x in v:
+            bd = gbigsmiles.BondDescriptor("[$]", 0, "", 0)
+            bd.weight = x
+            bds.append(bd)
+        rec = Rec()
+        try:
+            core.choose_compatible_weight(bds, None, rec)
+            got = rec.p
+            if rec.a != list(range(len(v))):
+                bad.append({"ws": v, "impl_options": rec.a})
+                continue
+        except Exception as exc:
+            got = None
+        want = None if "p" not in o else [float(unfrac(x)) for x in o["p"]]
+        # a vector of zeros after normalisation: 0/0 in numpy (nan, warning) and x/0 = 0 in Lean's Rat; both are refused by rng.choice
+        if got is not None and any(x != x for x in got):
+            got = None
+        if want is not None and abs(sum(want) - 1.0) > 1e-9:
+            want = None
+        if (got is None) != (want is None) or (got is not None and not all(close(a, b, 1e-12) for a, b in zip(got, want))):
+            bad.append({"ws": v, "impl": got, "model": want})
+    return not bad, f"vector handed to rng.choice for all {len(vecs)} weight vectors of length 1-4 over {vals}", bad[:5]
+
+
+VALIDATORS["choose"] = _choose
+
+
 def validate(part, driver):
     """(ok, what was compared, sample of differences)"""
     f = VALIDATORS.get(part)
